@@ -476,3 +476,21 @@ def load_known_findings():
     for ent in data.get('findings', []):
         out.setdefault(ent['property'], []).append(ent)
     return out
+
+
+def sub_check(chk, modname):
+    """Run the correspondence of another property's check (props/<modname>.py) under this check's property id: an
+    alarm there is an alarm here.  Known findings of the other property are tolerated there and not repeated here."""
+    import importlib
+    mod = importlib.import_module(modname)
+    sub = Check(chk.pid, chk.tier, chk.seed, level='proof')
+    mod.run(sub)
+    for path, nofail in sub.violations:
+        chk.violations.append((path, nofail))
+    cov, sc = chk.coverage, sub.coverage
+    cov['evaluations'] += sc.get('evaluations', 0)
+    cov['traces_validated_against_impl'] += sc.get('traces_validated_against_impl', 0)
+    cov['distinct_nontrivial'] += sc.get('distinct_nontrivial', 0)
+    cov.setdefault('sub_checks', {})[modname] = {'evaluations': sc.get('evaluations', 0), 'violations': len(sub.violations)}
+    cov['obligations'] += sc.get('obligations', 0)
+    cov['discharged'] += sc.get('discharged', 0)
